@@ -77,3 +77,129 @@ def holdsC07 (fc : FC) (enc : Decl) (tag : String) (hh cc : Str) (ports : List D
             else ["event-" ++ String.ofList p.port.name ++ "." ++ String.ofList ev.name ++ "-not-typed-by-the-denoted-externs"]
 
 end Spec
+
+namespace Spec
+open Py Scoping Ast AstView Shell CppGen
+
+/-! ## C06: structural obligations of "valid, self-contained C++" on a returned file set -/
+
+structure CFile where
+  name : Str
+  contents : Str
+  deriving Repr, Inhabited
+
+def includeOf (l : Str) : Option (Bool × Str) :=
+  -- (isQuoted, target) of an `#include` line
+  let t := lstrip l
+  if (L "#include \"").isPrefixOf t then some (true, (t.drop 10).takeWhile (· ≠ '"'))
+  else if (L "#include <").isPrefixOf t then some (false, (t.drop 10).takeWhile (· ≠ '>'))
+  else none
+
+def quotedIncludes (f : CFile) : List Str :=
+  (splitlines f.contents).filterMap (fun l => match includeOf l with | some (true, t) => some t | _ => none)
+
+def systemIncludes (f : CFile) : List Str :=
+  (splitlines f.contents).filterMap (fun l => match includeOf l with | some (false, t) => some t | _ => none)
+
+def isHeader (f : CFile) : Bool := (L ".hh").isSuffixOf f.name
+
+/-- the first line that is neither blank nor a `//` comment -/
+def firstCodeLine (f : CFile) : Str := ((splitlines f.contents).filter isCodeLine).head?.getD []
+
+def hasIncludeGuard (f : CFile) : Bool :=
+  let l := firstCodeLine f
+  (L "#pragma once").isPrefixOf l || (L "#ifndef").isPrefixOf l
+
+/-- names declared as members of the shell struct: functions (`name(`) and variables (`name;`) -/
+def memberNames (hh : CFile) : List Str :=
+  let ls := (splitlines hh.contents).filter isCodeLine
+  let inside := (ls.dropWhile (fun l => !(L "struct ").isPrefixOf (lstrip l))).drop 2
+  let body := inside.takeWhile (fun l => l ≠ L "};")
+  body.filterMap fun l =>
+    let t := strip l
+    if t = L "private:" || t = L "public:" then none
+    else if t.contains '(' then
+      let before := t.takeWhile (· ≠ '(')
+      some (splitLastSpace before).2
+    else if (L ";").isSuffixOf t then
+      some (splitLastSpace (t.dropLast)).2
+    else none
+
+def hasDuplicates : List Str → Bool
+  | [] => false
+  | a :: r => r.contains a || hasDuplicates r
+
+/-- the signatures declared in the struct (functions only) and defined in the source -/
+def declaredSigs (hh : CFile) : List SigEntity :=
+  let ls := (splitlines hh.contents).filter isCodeLine
+  let inside := (ls.dropWhile (fun l => !(L "struct ").isPrefixOf (lstrip l))).drop 2
+  let body := inside.takeWhile (fun l => l ≠ L "};")
+  body.filterMap fun l =>
+    let t := strip l
+    if t.contains '(' && (L ";").isSuffixOf t then
+      -- constructors have no return type: give the reader a dummy one
+      let t' := if (splitLastSpace (t.takeWhile (· ≠ '('))).1.isEmpty then L "void " ++ t else t
+      readSig t'
+    else none
+
+def definedSigs (cc : CFile) (structName : Str) : List SigEntity :=
+  (splitlines cc.contents).filterMap fun l =>
+    if l.contains '(' && containsSub (structName ++ L "::") l && !(L " ").isPrefixOf l && !(L "//").isPrefixOf l then
+      let l' := if (structName ++ L "::").isPrefixOf l then L "void " ++ l else l
+      readSig l'
+    else none
+
+def sigKey (s : SigEntity) : Str × List (Str × Str) × Str := (s.name, s.params, s.cav)
+
+/-- structural clauses of C06; returns (clause, detail) pairs -/
+def holdsC06 (files : List CFile) (structName modelHeader : Str) : List (String × Str) :=
+  let names := files.map (·.name)
+  let hh := files.headD default
+  let cc := (files.drop 1).headD default
+  (if files.length = 8 then [] else [("eight-files", [])]) ++
+  -- every quoted include names another returned file or the model header; none includes itself
+  (files.flatMap fun f => (quotedIncludes f).filterMap fun q =>
+     if q = f.name then some ("self-include", f.name)
+     else if names.contains q || q = modelHeader then none
+     else some ("include-closure", f.name ++ L " -> " ++ q)) ++
+  -- re-includable: every header starts with an include guard
+  ((files.filter isHeader).filterMap fun f => if hasIncludeGuard f then none else some ("reincludable", f.name)) ++
+  -- the struct is not placed in an unnamed namespace
+  ((files.take 2).filterMap fun f =>
+     if (splitlines f.contents).any (fun l => l = L "namespace {") then some ("named-scope", f.name) else none) ++
+  -- member names pairwise distinct
+  (if hasDuplicates (memberNames hh) then [("member-names-distinct", hh.name)] else []) ++
+  -- every declared member function is defined once with a matching signature, and vice versa
+  (let ds := (declaredSigs hh).map sigKey
+   let fs := (definedSigs cc structName).map sigKey
+   (ds.filterMap fun d => if fs.contains d then none else some ("declared-not-defined", d.1)) ++
+   (fs.filterMap fun d => if ds.contains d then none else some ("defined-not-declared", d.1)) ++
+   (if hasDuplicates (fs.map (·.1)) && !hasDuplicates (ds.map (·.1)) then [("defined-twice", cc.name)] else []))
+
+/-! standard-library names used by the support headers and the header that provides them -/
+def stdNameTable : List (String × String) :=
+  [("std::string", "string"), ("std::wstring", "string"), ("std::function", "functional"),
+   ("std::reference_wrapper", "functional"), ("std::runtime_error", "stdexcept"),
+   ("std::optional", "optional"), ("std::nullopt", "optional"), ("std::vector", "vector"), ("std::map", "map"),
+   ("std::unique_ptr", "memory"), ("std::mutex", "mutex"), ("std::unique_lock", "mutex"),
+   ("std::move", "utility"), ("std::transform", "algorithm"), ("std::toupper", "cctype"),
+   ("std::towupper", "cwctype"), ("std::is_same_v", "type_traits")]
+
+/-- headers that are known to be pulled in by another standard header on every implementation
+    (not relied upon: only <utility> via <functional>/<memory>/<string>, <type_traits> via any) -/
+def impliedBy (h : String) (incs : List Str) : Bool :=
+  (h = "utility" || h = "type_traits") && !incs.isEmpty
+
+/-- `std::` names a support header uses without including their header, directly or through the
+    other returned headers it includes -/
+def missingStdHeaders (files : List CFile) (f : CFile) : List (String × String) :=
+  let direct := files.filter (fun g => (quotedIncludes f).contains g.name)
+  let incs0 := systemIncludes f ++ direct.flatMap systemIncludes
+  -- the Dezyne runtime header <dzn/meta.hh> includes these standard headers (Appendix B of DESIGN.md)
+  let incs := incs0 ++ (if incs0.contains (L "dzn/meta.hh") then
+      [L "algorithm", L "functional", L "memory", L "stdexcept", L "string", L "vector"] else [])
+  let code := ((splitlines f.contents).filter isCodeLine)
+  stdNameTable.filter fun (n, h) =>
+    code.any (fun l => containsSub n.toList l) && !incs.contains h.toList && !impliedBy h incs
+
+end Spec
